@@ -20,7 +20,7 @@ func runC17(ctx *Ctx) {
 	if ctx.Isolate() {
 		return
 	}
-	r.Rule = "exhaustive where the domain allows: PLMN 1000x1100; AMF-ID all 2^24; S-NSSAI SST 0..255 x SD{absent,000000,000001,010203,ffffff,upper-case} and SD all 2^24 x SST 1; IPv4 every octet position over 0..255 at 3 bases; " +
+	r.Rule = "exhaustive where the domain allows: PLMN 1000x1100; AMF-ID all 2^24; S-NSSAI SST 0..255 x SD{absent,000000,000001,010203,ffffff,upper-case} and SD all 2^24 x SST 1; IPv4 every octet position over 0..255 (thorough: all 2^32 addresses) at 3 bases; " +
 		"IPv6 alphabet (::, ::1, one-octet-set x16, ffff:..., 2001:db8::1); dual = IPv4 alphabet x IPv6 alphabet; PCO all lists of <=3 units over 5 ids x 6 content lengths {0,1,2,4,16,255} (+ the Add* helpers); DNN lengths 0..100; " +
 		"oracle: reference encodings per TS 24.501/23.003/38.414/24.008 and inverse(conversion(x)) == x; distinct = distinct inputs (by construction), all non-trivial"
 	// PLMN
@@ -164,6 +164,30 @@ func runC17(ctx *Ctx) {
 		}
 	})
 	r.Sample("IPAddressToNgap(10.45.0.2, 2001:db8::1) -> 160-bit string -> IPAddressToString")
+	if ctx.Thorough {
+		// every IPv4 address (2^32): octets, bit length and the inverse
+		ParallelFor(r, 1<<24, func(l *report.Local, hi int) {
+			var bad string
+			for lo := 0; lo < 256 && bad == ""; lo++ {
+				a := [4]byte{byte(hi >> 16), byte(hi >> 8), byte(hi), byte(lo)}
+				txt := net.IP(a[:]).String()
+				if perr := recoverErr(func() {
+					t := ngapConvert.IPAddressToNgap(txt, "")
+					o4, o6 := ngapConvert.IPAddressToString(t)
+					if t.Value.BitLength != 32 || !bytes.Equal(t.Value.Bytes, a[:]) || o4 != txt || o6 != "" {
+						bad = fmt.Sprintf("%s -> %x/%d -> %q %q", txt, t.Value.Bytes, t.Value.BitLength, o4, o6)
+					}
+				}); perr != nil {
+					bad = txt + ": " + perr.Error()
+				}
+			}
+			l.CaseN(true, uint64(hi&0xff))
+			if bad != "" {
+				r.Violate("IPAddress/all-ipv4", fmt.Sprintf("ipv4 %d.%d.%d.x", hi>>16, (hi>>8)&255, hi&255), bad, nil)
+			}
+		})
+		r.Set("ipv4_addresses_exhaustive", "2^32")
+	}
 	// PCO: all lists of <=3 units
 	ids := []uint16{0x000a, 0x000d, 0x0003, 0x0010, 0x8021}
 	lens := []int{0, 1, 2, 4, 16, 255}
